@@ -272,6 +272,18 @@ def check_unchecked_roots(ctx, facts):
     ctx.floor("C11.1", "archived_root call sites", n, 1)
 
 
+def _length_bounded(b, blocks):
+    """every block of `blocks` is dominated by the pass edge of a comparison `<.. read_size ..> <= len(..)`"""
+    edges = []
+    for T in all_tests(b):
+        if T.kind != "cmp" or T.op not in ("Gt", "Ge", "Lt", "Le"):
+            continue
+        a_s, b_e = show(strip_refs(expr(b, T.a))), strip_refs(expr(b, T.b))
+        if "read_size" in a_s and b_e[0] in ("len", "call") and ("len" in show(b_e)):
+            edges.append(T.false_edge if T.op in ("Gt", "Ge") else T.true_edge)
+    return bool(edges) and all(any(b.edge_guards(e, blk) for e in edges) for blk in blocks)
+
+
 def check_untrusted_length(ctx, facts):
     n = 0
     for fn in ("block::Block::read", "batch_read_for_topic", "walrus::Walrus::startup_chore"):
@@ -284,15 +296,23 @@ def check_untrusted_length(ctx, facts):
             if "read_size" not in sh:
                 continue
             n += 1
-            # a dominating comparison whose left side contains the same read_size expression and whose right side is a len()
-            ok = False
-            for T in all_tests(b):
-                if T.kind != "cmp" or T.op not in ("Gt", "Ge", "Lt", "Le"):
-                    continue
-                a_s, b_e = show(strip_refs(expr(b, T.a))), strip_refs(expr(b, T.b))
-                if "read_size" in a_s and b_e[0] in ("len", "call") and ("len" in show(b_e)):
-                    pass_edge = T.false_edge if T.op in ("Gt", "Ge") else T.true_edge
-                    if b.edge_guards(pass_edge, s.bb):
+            ok = _length_bounded(b, [s.bb])
+            if not ok:
+                # the size is a field of a value returned by a crate-local function: accept when that
+                # function performs the bound check before each of its success returns
+                src, _, _ = origins(b, size_arg)
+                for o in src:
+                    if o.kind != "call":
+                        continue
+                    g = facts.bodies.get(o.what) or next((bb_ for nn, bb_ in facts.bodies.items() if strip_generics(nn) == strip_generics(o.what)), None)
+                    if g is None or g.j.get("derived"):
+                        continue
+                    oks = [blk for blk in g.return_blocks()]
+                    okr = []
+                    for site, st in g.assigns():
+                        if st["place"]["l"] == 0 and not st["place"]["p"] and st["rv"]["k"] == "agg" and st["rv"].get("variant") == "Ok":
+                            okr.append(site.bb)
+                    if okr and _length_bounded(g, okr):
                         ok = True
             if ok:
                 ctx.ok("C11.3", F, "%s sized by read_size is dominated by a bound against a buffer/file length" % callee_name(s.node).split("::")[-1], b.relfile, s.line)
